@@ -206,6 +206,27 @@ func check(c Case) (o ev.Outcome) {
 				}
 				e := yang.ToEntry(obs.MS.Modules[m.Name])
 				for p, x := range yref.Paths(trees[m.Name]) {
+					if x.Type != nil && x.Type.Kind == "union" && strings.HasPrefix(x.Name, "idu") {
+						// a union of identityrefs keeps every member whose base is another identity
+						if le := e.Find(strings.TrimPrefix(p, "/")); le != nil && le.Type != nil {
+							var want, got []string
+							for _, u := range x.Type.Union {
+								want = append(want, u.Kind+" "+u.IdentityBase)
+							}
+							for _, u := range le.Type.Type {
+								b := ""
+								if u.IdentityBase != nil {
+									b = idKey(u.IdentityBase)
+								}
+								got = append(got, yang.TypeKindToName[u.Kind]+" "+b)
+							}
+							if fmt.Sprint(want) != fmt.Sprint(got) {
+								o.Violate("identityref-base", "C11/identityref-union-members", "leaf %s of %s: union members should be %q, they are %q", p, m.Name, want, got)
+								return
+							}
+						}
+						continue
+					}
 					if x.Type == nil || x.Type.Kind != "identityref" {
 						continue
 					}
